@@ -18,6 +18,7 @@ import MW.Lemmas.LedgerPendingRollback
 import MW.Lemmas.PendHistRun
 import MW.Lemmas.PendHistObs
 import MW.Lemmas.PendHistEx
+import MW.Lemmas.PendHistCredRun
 namespace MW.Props.C09
 open MW MW.Model.Ledger MW.Lemmas.LedgerPending
 
@@ -375,28 +376,177 @@ example : ((runH exE exW0 exEvs).s.pending.map (·.1), (runH exE exW0 exEvs).sp.
 
 end history
 
+-- ------------------------------------------------------------------ (6) the pending-credit and unmined-deposit buckets
+
+section credits
+open MW.Lemmas.PendHist MW.Lemmas.PendHist.Cred MW.Lemmas.Ledger MW.Spec.Pending
+
+/-- CREDIT FRAME of the conflict purge, for ALL stores with keys = ids and ANY fuel: `removeConflict` adds no record to
+    the pending-credit / unmined-deposit buckets, leaves the records of every transaction that stays pending untouched,
+    and a transaction that stops being pending has no pending credit at any output index and no deposit record of any
+    staking / binding output paying an owned address left -/
+theorem conflict_purge_credit_frame (own : Own) (fuel : Nat) (s : Store) (tx : Tx)
+    (hk : ∀ id t, AMap.get s.pending id = some t → t.id = id) (hroot : AMap.get s.pending tx.id = some tx) :
+    CFr own s (removeConflict own fuel s tx) := removeConflict_cfr own fuel s tx hk hroot
+
+/-- the hypotheses are met by the chain store P ← Q ← R above (keys = ids is `PendWF.key_id`) -/
+example : AMap.get exS3.pending exP.id = some exP := by decide
+
+/-- RECEIVE keeps the CREDIT RELATION `CredRel` (pending credits = the owned outputs of the spec-pending transactions with
+    amount, class and script hash; unmined deposit records = their staking / binding outputs paying an owned address) -/
+theorem recv_refines_credits (rank : TxId → Nat) (e : Spec.Pending.Env) (ctx : Ctx) (s : Store) (v : Vol) (c : List Block)
+    (P : List Tx) (t : Tx) (hrel : PendRel rank s P) (hcr : CredRel e s P) (hown : e.own = ctx.own)
+    (hAR : AllReady ctx.own (readyWallets s ctx.wallets))
+    (hid : ∀ t0, AMap.get s.pending t.id = some t0 → t0 = t)
+    (hrel' : PendRel rank (recvTx ctx s v t).1 (onRecv e ctx.node.chain c P t)) :
+    CredRel e (recvTx ctx s v t).1 (onRecv e ctx.node.chain c P t) :=
+  recv_cred rank e ctx s v c P t hrel hcr hown hAR hid hrel'
+
+/-- CONNECT keeps the credit relation: `filterBlock` is a credit frame (`filterBlock_cfr`), so after the block the two
+    buckets hold exactly the records of the surviving pending transactions -/
+theorem connect_refines_credits (rank : TxId → Nat) (e : Spec.Pending.Env) (ctx : Ctx) (s s' : Store) (c : List Block)
+    (b : Block) (P : List Tx) (ready : List Wid) (conf : List TxId)
+    (h : filterBlock ctx s ready b = .ok (s', conf)) (hne : ready.isEmpty = false) (hown : e.own = ctx.own)
+    (hAR : AllReady ctx.own ready)
+    (hnorec : ∀ u ∈ b.txs, AMap.get s.txrecs (u.id, ⟨b.height, b.id⟩) = none)
+    (hrel : PendRel rank s P) (hcr : CredRel e s P) (hok : ConnOK c b P)
+    (hrel' : PendRel rank s' (onChainMoved e c (c ++ [b]) P)) :
+    CredRel e s' (onChainMoved e c (c ++ [b]) P) :=
+  connect_cred rank e ctx s s' c b P ready conf h hne hown hAR hnorec hrel hcr hok hrel'
+
+/-- the coinbase purge at the end of Rollback is a credit frame as well (the part of DISCONNECT that is proved) -/
+theorem disconnect_purge_credit_frame (own : Own) (rem : List (TxId × Nat)) (s : Store)
+    (hk : ∀ id t, AMap.get s.pending id = some t → t.id = id) :
+    CFr own s (rem.foldl (purgeSpenders own) s) := purgeFold_cfr own rem s hk
+
+/-- NO RESIDUE — the former hypothesis `RecvDom.residue` is a consequence of the credit relation -/
+theorem residue_of_credit_relation (e : Spec.Pending.Env) (s : Store) (P : List Tx) (h : CredRel e s P) (id : TxId)
+    (hn : hasId P id = false) :
+    (∀ j, AMap.get s.pendCred (id, j) = none) ∧ (∀ w b j, AMap.get s.pendGame (w, b, id, j) = none) :=
+  h.residue id hn
+
+/-- CREDIT RELATION ALONG HISTORIES, PARTIAL.  From a world satisfying `HInvC` (= `HInv` + `CredRel`; e.g. a fresh wallet),
+    for every history inside `HOKc`, after the history `HInv` and `CredRel` hold, and the raw dump `pcred` of the model is
+    the specification's `pendingCredits`.  `HOKc` = `HOK` with the receive domain WITHOUT its residue clause (now a
+    theorem) and — this is the partial part — with the credit relation after each DISCONNECT step as an explicit
+    hypothesis: that the per-record loop of Rollback re-creates the records of the un-confirmed transactions (from the
+    mined credit table, whose values are C01's) is not proved; receive, connect and the purge of disconnect are. -/
+theorem credit_refines_partial (rank : TxId → Nat) (E : HEnv) (w : HW) (evs : List HEv) (H : HInvC rank E w)
+    (hD : ∀ x ∈ worldsH E w evs, HOKc rank E x.1 x.2) :
+    HInvC rank E (runH E w evs) ∧
+    (∀ id j amt, (∃ cr, AMap.get (runH E w evs).s.pendCred (id, j) = some cr ∧ cr.amt = amt) ↔
+      (id, j, amt) ∈ pendingCredits E.env (runH E w evs).sp.pend) :=
+  have h := hinvc_run evs w H hD
+  ⟨h, h.cred.pcred h.inv.rel.nodup⟩
+
+/-- PENDING OUTPUTS ARE NOT CONFIRMED ("the coins it creates are not counted as confirmed"): along every history in the
+    domain of `pending_refines`, no output of a spec-pending transaction is in the unspent index — the table the
+    balances and the coin listings are computed from (needs `HInv` only) -/
+theorem pending_outputs_not_confirmed (rank : TxId → Nat) (E : HEnv) (w : HW) (evs : List HEv) (H : HInv rank E w)
+    (hD : ∀ x ∈ worldsH E w evs, HOK rank E x.1 x.2) (hV : ChainValid E.own (runH E w evs).sp.chain) :
+    ∀ t ∈ (runH E w evs).sp.pend, ∀ wl j, AMap.get (runH E w evs).s.unspent (wl, t.id, j) = none :=
+  fun t ht wl j => pending_not_unspent (hinv_run evs w H hD) hV t ht wl j
+
+/-- CONFIRMED EXACTLY ONCE, at history level ("when it confirms it becomes an ordinary ledger entry exactly once"): in a
+    world satisfying `HInvC`, after the successful connect (inside the domain) of a block containing the spec-pending
+    transaction `t`: `t` has left both pending sets, no pending-credit and no unmined-deposit record of `t` is left, and
+    every owned output of `t` has its mined credit under that block (one per outpoint and block: the key) -/
+theorem confirm_exactly_once_hist (rank : TxId → Nat) (E : HEnv) (w : HW) (H : HInvC rank E w) (b : Block)
+    (D : HOK rank E w (.connect b)) (r : Store × List TxId)
+    (hf : filterBlock (E.ctx w.node) w.s (readyWallets w.s E.wallets) b = .ok r)
+    (t : Tx) (ht : t ∈ w.sp.pend) (htb : t ∈ b.txs) :
+    t ∉ (stepH E w (.connect b)).sp.pend ∧
+    AMap.get (stepH E w (.connect b)).s.pending t.id = none ∧
+    (∀ j, AMap.get (stepH E w (.connect b)).s.pendCred (t.id, j) = none) ∧
+    (∀ wl bb j, AMap.get (stepH E w (.connect b)).s.pendGame (wl, bb, t.id, j) = none) ∧
+    (∀ j o, t.outs[j]? = some o → ownedOut E.env o = true →
+      (AMap.get (stepH E w (.connect b)).s.credits ⟨t.id, ⟨b.height, b.id⟩, j⟩).isSome = true) :=
+  confirm_once_hist H b D r hf t ht htb
+
+/-- non-vacuity: the fresh wallet of `pending_refines` satisfies `HInvC`, the concrete history there (no disconnect) is
+    inside `HOKc`; after it the model's pending credits are the spec's: none for T2 (it pays a stranger) -/
+theorem exHInvC0 : HInvC exRankH exE exW0 :=
+  ⟨exHInv0, ⟨fun _ _ _ h => (by cases h), fun _ h => (by cases h), fun _ _ _ _ h => (by cases h), fun _ h => (by cases h)⟩⟩
+
+theorem mem_worldsH_ev (E : HEnv) : ∀ (evs : List HEv) (w : HW) (x : HW × HEv), x ∈ worldsH E w evs → x.2 ∈ evs := by
+  intro evs
+  induction evs with
+  | nil => intro w x h; cases h
+  | cons ev evs ih =>
+    intro w x h
+    simp only [worldsH, List.mem_cons] at h
+    rcases h with rfl | h
+    · exact List.mem_cons_self ..
+    · exact List.mem_cons_of_mem _ (ih _ x h)
+
+theorem exDomainC : ∀ x ∈ worldsH exE exW0 exEvs, HOKc exRankH exE x.1 x.2 := by
+  intro x hx
+  have h := exDomain x hx
+  have hev := mem_worldsH_ev exE exEvs exW0 x hx
+  obtain ⟨xw, xe⟩ := x
+  cases xe with
+  | node n => exact h
+  | vol v => exact h
+  | recv t =>
+    have h' : RecvDom exRankH exE xw t := h
+    exact ⟨h'.valid, h'.known, h'.srcN, h'.idx, h'.rank, h'.nobb, h'.seen, h'.fresh, h'.noconf⟩
+  | connect b => exact h
+  | disconnect => simp [exEvs] at hev
+
+example : (runH exE exW0 exEvs).s.pendCred = [] ∧ pendingCredits exE.env (runH exE exW0 exEvs).sp.pend = [] := by decide
+
+end credits
+
 -- ------------------------------------------------------------------ what is NOT proved here
 
-/-- STILL OPEN (1): the driver's `notify` applies ONE `onChainMoved` from the old to the new chain, the model (and
-    `pending_refines`) move block by block.  The statement that the one-shot settle equals the composition of the
-    single-block moves (for the disconnect-then-connect sequences `notify_is_steps` produces) is not proved; it is
-    FALSE for a stale notification while a pending transaction conflicts with the wallet's lagging chain (see
-    notes/C09.md, Round 4). -/
+open MW.Lemmas.PendHist in
+/-- NOTIFY, the direct extension (the notified block's parent is the follower's best block): `processBlock` IS one
+    connect step — same store; and the driver's one-shot `onChainMoved old (old ++ [b])` is literally the move `stepH`
+    applies.  So for this (by far most frequent) kind of notification `pending_refines` speaks about the very function
+    MW.Drv.Led executes. -/
+theorem notify_extend_is_connect (E : HEnv) (w : HW) (b : Block) (hprev : b.prev = w.v.best.hash) :
+    (stepH E w (.connect b)).s = (processBlock (E.ctx w.node) w.s w.v b).1 ∧
+    (stepH E w (.connect b)).sp =
+      (if (processBlock (E.ctx w.node) w.s w.v b).2.2 = true then
+        Spec.Pending.step w.sp (.moved E.env (w.sp.chain ++ [b])) else w.sp) := by
+  have hw : (E.ctx w.node).wallets = E.wallets := rfl
+  unfold processBlock
+  simp only [hprev, if_true, hw]
+  cases hf : filterBlock (E.ctx w.node) w.s (readyWallets w.s E.wallets) b with
+  | error e => simp [stepH, hf, bind, Except.bind]
+  | ok r => simp [stepH, hf, bind, Except.bind, pure, Except.pure]
+
+/-- STILL OPEN (1): for a reorganising notification the driver's `notify` applies ONE `onChainMoved` from the old to the
+    new chain, the model (and `pending_refines`) move block by block (`notify_is_steps`).  The statement that the one-shot
+    settle has the same MEMBERS as the composition of the single-block moves is not proved.  (Round 4 stated it with `=`
+    on lists; that form is not the right one: the one-shot form appends the un-confirmed transactions of the disconnected
+    blocks in block order, the composition in reverse block order — every observation sorts.)  It is FALSE for a stale
+    notification while a pending transaction conflicts with the wallet's lagging chain (notes/C09.md, Rounds 4 and 5).
+    Also open: that the disconnect steps of `notify_is_steps` are at the wallet's tip (`stepH .disconnect`) — needs
+    `v.best` = tip of the wallet's chain in the invariant (C01's `processBlock_reaches` has it). -/
 def C09_full_notify_refinement (Domain : Spec.Pending.Env → List Block → List Block → List Tx → Prop) : Prop :=
   ∀ e c0 (old new : List Block) P, Domain e (c0 ++ old) (c0 ++ new) P →
-    Spec.Pending.onChainMoved e (c0 ++ old) (c0 ++ new) P =
-      ((List.range new.length).foldl (fun (cp : List Block × List Tx) k =>
+    ∀ t, t ∈ Spec.Pending.onChainMoved e (c0 ++ old) (c0 ++ new) P ↔
+      t ∈ ((List.range new.length).foldl (fun (cp : List Block × List Tx) k =>
           (c0 ++ new.take (k + 1), Spec.Pending.onChainMoved e cp.1 (c0 ++ new.take (k + 1)) cp.2))
         ((List.range old.length).foldl (fun (cp : List Block × List Tx) k =>
             (c0 ++ old.take (old.length - k - 1),
              Spec.Pending.onChainMoved e cp.1 (c0 ++ old.take (old.length - k - 1)) cp.2))
           (c0 ++ old, P))).2
 
-/-- STILL OPEN (2): the pending-credit and unmined-deposit buckets are not part of `PendRel` (tied by the raw dumps
-    `pcred`, `pgame`); the full relation would add: -/
-def C09_full_credit_relation (e : Spec.Pending.Env) (s : Store) (P : List Tx) : Prop :=
-  ∀ id j amt, (∃ cr, AMap.get s.pendCred (id, j) = some cr ∧ cr.amt = amt) ↔
-    (id, j, amt) ∈ Spec.Pending.pendingCredits e P
+/-- STILL OPEN (2): the credit relation along ALL histories of `pending_refines`, i.e. `credit_refines_partial` without the
+    hypothesis at the disconnect steps.  Proved: receive, connect, the purge of disconnect, and — given the relation —
+    the statement below (`credit_refines_partial`, second component).  Missing: the per-record loop of Rollback
+    re-creates the pending credits / deposit records of the un-confirmed transactions with the values of the mined
+    credit table. -/
+def C09_full_credit_relation : Prop :=
+  ∀ (rank : TxId → Nat) (E : MW.Lemmas.PendHist.HEnv) (w : MW.Lemmas.PendHist.HW) (evs : List MW.Lemmas.PendHist.HEv),
+    MW.Lemmas.PendHist.Cred.HInvC rank E w →
+    (∀ x ∈ MW.Lemmas.PendHist.worldsH E w evs,
+      match x.2 with
+      | .recv t => MW.Lemmas.PendHist.Cred.RecvDomC rank E x.1 t
+      | ev => MW.Lemmas.PendHist.HOK rank E x.1 ev) →
+    MW.Lemmas.PendHist.Cred.CredRel E.env (MW.Lemmas.PendHist.runH E w evs).s (MW.Lemmas.PendHist.runH E w evs).sp.pend
 
 /-- the former schematic statement over driver strings (kept for reference; `pending_refines` is its typed form) -/
 def C09_full_history_refinement (Domain : List (List String) → Prop)
